@@ -146,7 +146,7 @@ fn exhaustive(_t: Tier) -> Box<dyn Iterator<Item = Case>> {
 /// Pairs of 1..=6 components from a six-name pool, every separator (the leading one too) drawn
 /// independently; half of the pairs are built around a shared prefix of 1..=3 components.
 fn random(_t: Tier) -> BoxedStrategy<Case> {
-    let name = || select(vec!["a", "b", "c", "d", "x.js", "y.map"]);
+    let name = || select(vec!["a", "b", "c", "d", "x.js", "y.map", "ab", "a.js", "x", "x.j"]);
     let independent = (vec(name(), 1..=6), vec(name(), 1..=6));
     let related = (vec(name(), 1..=3), vec(name(), 0..=5), vec(name(), 0..=3)).prop_map(|(shared, b, t)| {
         let mut base = [shared.clone(), b].concat();
@@ -183,7 +183,7 @@ fn subs() -> Vec<Sub> {
 pub const DEF: PropertyDef = PropertyDef {
     id: "C19",
     rule: "exhaustive: every base path x target path of 1..4 components over {a,b,c} x {both absolute, both relative} \
-           x separator '/' or '\\' (57 600 pairs). random: proptest pairs of 1..6 components from {a,b,c,d,x.js,y.map} \
+           x separator '/' or '\\' (57 600 pairs). random: proptest pairs of 1..6 components from {a,b,c,d,x.js,y.map,ab,a.js,x,x.j} (names that are prefixes of one another) \
            with mixed separators, half of them around a shared prefix (the cell remaining=0,climb=3+ needs a base of \
            at least 5 components and is reached by random only). Non-trivial = at least 2 target components \
            remain after the prefix shared with the base directory, or at least 2 levels must be climbed",
